@@ -278,7 +278,9 @@ def gen_cases(tier, seed):
                                                                                           ("daily:current", "day_gaps"), ("hourly:default", "month_gap"),
                                                                                           ("daily:current", "month_gap"), ("billing", "month_gap"), ("daily:legacy", "temp_run"),
                                                                                           # the poor-fit rule under the other fitting paths of the hourly family (adaptive re-weighting, other scaler, solar)
-                                                                                          ("hourly:adaptive", "poor_fit"), ("hourly:robust", "poor_fit"), ("hourly:default:ghi", "poor_fit")]
+                                                                                          ("hourly:adaptive", "poor_fit"), ("hourly:robust", "poor_fit"), ("hourly:default:ghi", "poor_fit"),
+                                                                                          # accepted settings alternatives of the hourly family: fit returns a model (or the typed error) under each of them
+                                                                                          ("hourly:nobins", "none"), ("hourly:nointercept", "none"), ("hourly:enet-random", "too_short"), ("hourly:cluster-cosine", "none")]
     else:
         combos = combos * 3 + [("hourly:default", "poor_fit_undefined_metric"), ("hourly:robust", "poor_fit_undefined_metric"), ("hourly:default:ghi", "poor_fit_undefined_metric")]
         # developer / custom profiles too (thorough): the gate must not depend on the profile
